@@ -759,6 +759,21 @@ func (x *Exec) cover(s *State, name string) {
 	s.add('g', "false", g)
 }
 
+// coverAfterCall: vacuity guard for an assumed contract. Right after the
+// postconditions of a callee have been assumed the path must not be
+// contradictory on every instance (a contract whose postcondition contradicts
+// the typing or allocation facts of the caller would otherwise make everything
+// after the call provable).
+func (x *Exec) coverAfterCall(s *State, label string) {
+	if s.dead {
+		return
+	}
+	x.counter++
+	g := &Goal{id: x.counter, name: x.entryKey + "#cover:after:" + label, kind: "cover", term: tFalse, expect: "cover", cheap: true}
+	x.goals = append(x.goals, g)
+	s.add('g', "false", g)
+}
+
 func (x *Exec) loopBackEdge(s *State, li *loopInfo, from *ssa.BasicBlock) {
 	x.setPhis(s, li, from)
 	s.comment("loop back edge %s", li.key)
